@@ -838,7 +838,7 @@ pub fn run_c08(run: &mut Run) -> Stats {
         vec![(1, 5), (2, 5), (3, 4), (4, 4), (7, 4), (4096, 4), (65536, 3)],
         vec![(1, 6), (2, 6), (3, 5), (4, 5), (7, 5), (4096, 5), (65536, 4)],
     );
-    run.rule = "every history over {write(n), write_all(n), flush, poll, poll-until-pending, drop-writer} (n in 0..=3c for chunk size c <= 4, {0,1,c-1,c,c+1,2c,3c} otherwise) up to the stated depth, each followed by an epilogue (drop writer, drain, 2 extra polls); identity coding both without Accept-Encoding and with 'gzip' at level 0. Reference model = byte vector + cursors; checked after every operation: write returns 1..=n on a live body, delivered bytes are a prefix of accepted bytes, frames non-empty, Pending only when everything accepted before the last successful flush has been delivered, clean end after writer drop with delivered == accepted. non-trivial = distinct (config, history)".into();
+    run.rule = "every history over {write(n), write_all(n), flush, poll, poll-until-pending, drop-writer} (n in 0..=3c for chunk size c <= 4, {0,1,c-1,c,c+1,2c,3c} otherwise) up to the stated depth, each followed by an epilogue (drop writer, drain, 2 extra polls); identity coding both without Accept-Encoding and with 'gzip' at level 0. Reference model = byte vector + cursors; checked after every operation: write returns 1..=n on a live body, delivered bytes are a prefix of accepted bytes, frames non-empty, Pending only when everything accepted before the last successful flush has been delivered, clean end after writer drop with delivered == accepted. plus 'long and narrow' histories: a unit of 1-3 operations ({write(n)}, {write_all(n)}, {write(n), flush}, {write_all(n), flush, drain}, {write(n), poll}, {write_all(n), flush, poll}, {write_all(n), write_all(1), flush}) repeated k times, k up to 100 (thorough: every k up to 130, then 255..257, 300, 1000), chunk sizes {4096, 1000, 65536, 3}, n in {1, c-1, c, c+1, 2c+1, 10007}. non-trivial = distinct (config, history)".into();
     run.bounds = json!({"chunk_size:depth": plan.iter().map(|(c, d)| format!("{c}:{d}")).collect::<Vec<_>>(), "extra_polls": 2});
     let mut total = Stats::new();
     let mut sat = Vec::new();
@@ -854,6 +854,9 @@ pub fn run_c08(run: &mut Run) -> Stats {
         }
     }
     run.extra.insert("per_config".into(), json!(sat));
+    let lr = long_runs(&run.prop, tier, None, 2);
+    run.extra.insert("long_run_histories".into(), json!(lr.evaluations));
+    total.merge(lr);
     total
 }
 
@@ -977,6 +980,10 @@ pub fn run_c09(run: &mut Run) -> Stats {
         st.nontrivial(&(level, t, "ramp"));
         report(&prop, &cfg, &ops, 1, &o, st, (1 << 50) + i);
     }));
+    for l in tier.pick(vec![6u32], vec![1, 6, 9]) {
+        let lr = long_runs(&prop, Tier::Quick, Some(l), 1);
+        total.merge(lr);
+    }
     if dump {
         // Cross-check of the decoder (not the deciding step): distinct complete bodies are
         // written out for `python3 -c 'import zlib'` (C zlib) to re-decode; see ./check.
@@ -1091,6 +1098,62 @@ pub fn replay(case: &serde_json::Value, prop: &str) -> i32 {
     }
 }
 
+
+/// "Long and narrow" histories: a unit of one to three operations repeated k times (k up to
+/// several hundred), for realistic chunk sizes. They reach what the depth-bounded product cannot:
+/// the 7th and later operation, dozens to hundreds of queued chunks, the n-th flush, totals of
+/// megabytes -- at linear instead of exponential cost.
+pub fn long_runs(prop: &str, tier: Tier, gzip_level: Option<u32>, extra_polls: usize) -> Stats {
+    let chunks: Vec<usize> = vec![4096, 1000, 65_536, 3];
+    let mut cases: Vec<(Config, Vec<Op>)> = Vec::new();
+    for &c in &chunks {
+        let sizes: Vec<usize> = if c == 3 { vec![1, 2, 3, 4, 7, 10] } else { vec![1, c - 1, c, c + 1, 2 * c + 1, 10_007] };
+        let ks: Vec<usize> = tier.pick(vec![1, 2, 3, 4, 5, 6, 7, 8, 9, 10, 15, 16, 17, 31, 32, 33, 64, 65, 100], (1..=130).chain([255, 256, 257, 300, 1000]).collect());
+        for &n in &sizes {
+            let units: Vec<Vec<Op>> = vec![
+                vec![Op::W(n)],
+                vec![Op::WA(n)],
+                vec![Op::W(n), Op::F],
+                vec![Op::WA(n), Op::F, Op::PP],
+                vec![Op::W(n), Op::P],
+                vec![Op::WA(n), Op::F, Op::P],
+                vec![Op::WA(n), Op::WA(1), Op::F],
+            ];
+            for u in &units {
+                for &k in &ks {
+                    if k * n > 6_000_000 {
+                        continue;
+                    }
+                    let mut ops = Vec::with_capacity(k * u.len());
+                    for _ in 0..k {
+                        ops.extend_from_slice(u);
+                    }
+                    let (accept, level, payload) = match gzip_level {
+                        Some(l) => (Some("gzip".to_string()), l, if n % 2 == 0 { Payload::Rep } else { Payload::Rand }),
+                        None => (None, 6, Payload::Rand),
+                    };
+                    cases.push((Config { chunk: c, level, accept, payload }, ops));
+                }
+            }
+        }
+    }
+    par_for(cases.len() as u64, threads(), |i, st| {
+        let (cfg, ops) = &cases[i as usize];
+        let o = execute(cfg, ops, extra_polls);
+        st.evaluations += 1;
+        for (k, s) in o.states.iter().enumerate() {
+            st.states.insert(*s);
+            if k > 0 {
+                st.transition(o.states[k - 1], o.labels[k - 1], *s);
+            }
+        }
+        st.outcome(o.class.clone());
+        st.nontrivial(&(cfg, ops.len(), ops.first(), "long-run"));
+        st.count("long_run_histories", 1);
+        report(prop, cfg, ops, extra_polls, &o, st, (1 << 52) + i);
+    })
+}
+
 /// Streaming half of C12 / C20: the same history sweeps, reporting only that property's
 /// findings (C12: the per-step hint / end-flag monitor; C20: `extra` polls after the terminal
 /// event).
@@ -1111,5 +1174,7 @@ pub fn run_monitor(prop: &str, tier: Tier, extra_polls: usize) -> Stats {
         let cfg = Config { chunk: c, level, accept: Some("gzip".into()), payload: Payload::Rep };
         total.merge(sweep(prop, &cfg, alphabet(c, false, true, true, Some(vec![0, 1, 300, 5000])), d, extra_polls));
     }
+    total.merge(long_runs(prop, tier, None, extra_polls));
+    total.merge(long_runs(prop, Tier::Quick, Some(6), extra_polls));
     total
 }
